@@ -26,7 +26,7 @@ import copy
 from flat import _import_transitions
 
 import os
-REUSE_NAMES = os.environ.get('VERIF_C11_REUSE') == '1'
+REUSE_NAMES = os.environ.get('VERIF_C11_REUSE', '1') == '1'      # default on since /repo fix D54
 SEGS = ['A', 'B', 'C', 'D', 'E', 'F', 'G', 'H', 'K', 'x', 'y', 'z', 'u', 'v', 'w', '1', '2']
 EVENTS = ['go', 'run', 'stop', 'next', 'back']
 
